@@ -43,6 +43,11 @@ func c12Check(m *MClaims, c psatoken.IClaims) string {
 	if err != nil {
 		return "valid set does not encode to JSON: " + err.Error()
 	}
+	jsSnap := string(js)
+	interfere()
+	if string(js) != jsSnap {
+		return "the bytes returned by EncodeClaimsToJSON changed while other claims-sets were being encoded"
+	}
 	if !utf8.Valid(js) {
 		return "emitted JSON is not valid UTF-8"
 	}
@@ -89,6 +94,20 @@ func c12Check(m *MClaims, c psatoken.IClaims) string {
 		return "emitted JSON does not parse as an object: " + err.Error()
 	}
 	want := m.ExpectJSON()
+	// integers beyond 2^53 do not survive float64: compare that member exactly
+	if m.NoMeas != nil && *m.NoMeas > 1<<53 {
+		dec := json.NewDecoder(bytes.NewReader(js))
+		dec.UseNumber()
+		var exact map[string]any
+		if err := dec.Decode(&exact); err != nil {
+			return "emitted JSON does not parse: " + err.Error()
+		}
+		if got := fmt.Sprint(exact["psa-no-software-measurements"]); got != fmt.Sprint(*m.NoMeas) {
+			return fmt.Sprintf("JSON member psa-no-software-measurements is %s, want %d", got, *m.NoMeas)
+		}
+		delete(doc, "psa-no-software-measurements")
+		delete(want, "psa-no-software-measurements")
+	}
 	if !reflect.DeepEqual(doc, want) {
 		for _, k := range sortedKeys(want) {
 			if _, ok := doc[k]; !ok {
